@@ -13,7 +13,9 @@ META = {
         "every gate-free DAG program inside the stated size bounds (all shapes, all default/bound/provided assignments, node-list orders, both runners, "
         "select-induced unsatisfiable nodes) is executed on the implementation and compared with an independent evaluator: values, last-call arguments, "
         "invocation counts. Bounded-exhaustive, not a proof for larger graphs; wiring/precedence bugs are small-scope bugs.",
-        "reference evaluator mc/refsem.py; symbolic provenance terms as values; bounds in evidence.coverage.bounds",
+        "reference evaluator mc/refsem.py; symbolic provenance terms as values; bounds in evidence.coverage.bounds; also: falsy sources (None defaults, '' / None "
+        "bound, 0 supplied), generator nodes, None / 1-tuple outputs, nodes derived by rename after use, nested forms with inner / outer bindings, sibling nested "
+        "graphs binding one name differently",
     ),
 }
 
